@@ -117,6 +117,7 @@ pub enum GlyphProblem {
     NoComponents,
     NotInGlyphOrder,
     NotInColorPalette(Color),
+    ComponentOffsetOutOfBounds(f64, f64),
 }
 
 impl Display for GlyphProblem {
@@ -133,6 +134,12 @@ impl Display for GlyphProblem {
             GlyphProblem::NotInGlyphOrder => "has no entry in glyph order",
             GlyphProblem::NotInColorPalette(color) => {
                 _alloc = Some(format!("{color:?} has no entry in color palette"));
+                _alloc.as_ref().unwrap().as_str()
+            }
+            GlyphProblem::ComponentOffsetOutOfBounds(x, y) => {
+                _alloc = Some(format!(
+                    "has an offset ({x}, {y}) that does not fit in 16 bits"
+                ));
                 _alloc.as_ref().unwrap().as_str()
             }
         };
